@@ -10,25 +10,32 @@ import (
 var rangeRe = regexp.MustCompile(`[A-Za-z0-9."] ?- ?[A-Za-z0-9."]+ ->`)
 
 // waitGoroutines polls until the number of goroutines is back at (or
-// below) base.  The wait is bounded by 2 s; on a loaded machine a finished
-// goroutine may take a few scheduler rounds to disappear, a leaked one
-// never does.
+// below) base.  A finished goroutine may need a few scheduler rounds to
+// disappear, a leaked one never does.  The verdict "leak" is given only
+// after at least 2 s of wall-clock time *and* at least 500 polling rounds
+// that each yield the processor, so that a process that was frozen for a
+// while (loaded machine, CPU quota) does not produce a false alarm.
 func waitGoroutines(base int) error {
-	deadline := time.Now().Add(2 * time.Second)
+	start := time.Now()
 	for i := 0; ; i++ {
 		n := runtime.NumGoroutine()
 		if n <= base {
 			return nil
 		}
-		if time.Now().After(deadline) {
+		if i >= 550 && time.Since(start) >= 2*time.Second {
 			buf := make([]byte, 1<<16)
 			buf = buf[:runtime.Stack(buf, true)]
-			return fmt.Errorf("goroutine leak: %d goroutines before the call, %d still running 2 s after it returned\n%s", base, n, buf)
+			msg := fmt.Sprintf("goroutine leak: %d goroutines before the call, %d still running %v (%d polls) after it returned",
+				base, n, time.Since(start).Round(time.Millisecond), i)
+			return fmt.Errorf("%s\n%s\n%s", msg, buf, msg)
 		}
-		if i < 50 {
+		switch {
+		case i < 50:
 			runtime.Gosched()
-		} else {
+		case i < 550:
 			time.Sleep(time.Millisecond)
+		default:
+			time.Sleep(10 * time.Millisecond)
 		}
 	}
 }
